@@ -1,0 +1,25 @@
+//go:build verif
+
+// Contracts for the collector binary's glue, checked by /verif/gvc (comment-only
+// file, compiled only under the build tag "verif").
+package main
+
+// (the cache and manager operations are seen through the client views in /verif/contracts/stubs/collector_view.gvc)
+// A configured target is cacheKnows with the cache before the target manager starts
+// delivering its updates (the cache refuses updates for names it does not know), and a
+// target the manager refused is not left behind in the cache.
+//@ func (*collector).add
+//@   props C01 C12
+//@   requires c != nil && c.cache != nil && c.tm != nil && c.config != nil && id != "" && id != "*"
+//@   modifies ghost cacheKnows, ghost managed, t.Addresses
+//@   assert at call (*Manager).Add#0: [cache-knows-the-target-before-its-updates-flow C01] has(cacheKnows, id) && arg1 == id && arg2 == t
+//@   ensures [managed-targets-are-cacheKnows C01] res0 == nil ==> has(cacheKnows, id) && has(managed, id)
+//@   ensures [refused-target-leaves-the-cache-as-it-was C01] res0 != nil ==> (has(cacheKnows, id) <==> old(has(cacheKnows, id))) && (has(managed, id) <==> old(has(managed, id)))
+//@   ensures [other-targets-untouched C01] forall k string :: k != id ==> (has(cacheKnows, k) <==> old(has(cacheKnows, k))) && (has(managed, k) <==> old(has(managed, k)))
+
+//@ func (*collector).start
+//@   props C01 C12
+//@   requires c != nil && c.cache != nil && c.tm != nil && c.config != nil && (forall k string :: has(c.config.Target, k) ==> k != "" && k != "*")
+//@   modifies ghost cacheKnows, ghost managed, heap(tpb.Target.Addresses)
+//@   invariant 0: forall k string :: has(managed, k) && !old(has(managed, k)) ==> has(cacheKnows, k)
+//@   ensures [every-started-target-is-cacheKnows C01] forall k string :: has(managed, k) && !old(has(managed, k)) ==> has(cacheKnows, k)
